@@ -17,7 +17,7 @@ use std::{
 	time::{Duration, Instant},
 };
 
-const KINDS: [&str; 5] = ["tiny_commits", "huge_transactions", "index_growth", "slow_workers", "slow_clients"];
+const KINDS: [&str; 6] = ["tiny_commits", "huge_transactions", "index_growth", "slow_workers", "slow_clients", "giant_transaction"];
 
 fn value(client: u8, seq: u64, len: usize) -> Vec<u8> {
 	let mut v = Vec::with_capacity(len.max(10));
@@ -31,12 +31,18 @@ fn value(client: u8, seq: u64, len: usize) -> Vec<u8> {
 }
 
 pub fn run_case(ctx: &Ctx, rep: &mut Report, case_seed: u64, variant: u64) {
-	let kind = (variant % 5) as usize;
-	let always_flush = (variant / 5) % 2 == 0;
-	let desc = format!("C15 case_seed={} variant={} scenario={} always_flush={}", case_seed, variant, KINDS[kind], always_flush);
+	let kind = (variant % 6) as usize;
+	let always_flush = kind != 5 && (variant / 6) % 2 == 0;
+	// shutdown requested at any moment: half of the histories drop the handle the instant the last
+	// commit call returned (queue, log and enact stages still busy) instead of waiting for the drain
+	// (not with the test-only `always_flush` option: there the log worker enacts inline and a drop
+	// with more than four uncleaned logs waits for a cleanup stage that has already left - outside
+	// the property, whose configurations are the public options)
+	let immediate = kind == 5 || (!always_flush && (variant / 12) % 2 == 1) || (!always_flush && variant % 5 == 3);
+	let desc = format!("C15 case_seed={} variant={} scenario={} always_flush={} drop={}", case_seed, variant, KINDS[kind], always_flush, if immediate { "immediately" } else { "after drain" });
 	ctx.mark(&desc);
 	ctx.progress();
-	let r = catch(|| scenario(ctx, rep, case_seed, variant, kind, always_flush, &desc));
+	let r = catch(|| scenario(ctx, rep, case_seed, variant, kind, always_flush, immediate, &desc));
 	delays::uninstall();
 	match r {
 		Ok(()) => {},
@@ -48,7 +54,7 @@ pub fn run_case(ctx: &Ctx, rep: &mut Report, case_seed: u64, variant: u64) {
 	}
 }
 
-fn scenario(ctx: &Ctx, rep: &mut Report, case_seed: u64, variant: u64, kind: usize, always_flush: bool, desc: &str) {
+fn scenario(ctx: &Ctx, rep: &mut Report, case_seed: u64, variant: u64, kind: usize, always_flush: bool, immediate: bool, desc: &str) {
 	let mut rng = Rng::new(case_seed);
 	let dir = Scratch::new("c15");
 	let mut cfg = DbCfg::new(vec![col(false, kind == 2, false, false, CompressionType::NoCompression), col(true, false, false, false, CompressionType::NoCompression)]);
@@ -76,7 +82,7 @@ fn scenario(ctx: &Ctx, rep: &mut Report, case_seed: u64, variant: u64, kind: usi
 		}
 	}
 	let returned = Arc::new(AtomicU64::new(0));
-	let n_clients = if kind == 1 { rng.range(2, 3) } else { rng.range(2, 4) } as usize;
+	let n_clients = if kind == 5 { 1 } else if kind == 1 { rng.range(2, 3) } else { rng.range(2, 4) } as usize;
 	let quick = ctx.tier == pv::Tier::Quick;
 	let hot = rng.below(1 << 16) as u16;
 	let mut handles = vec![];
@@ -89,6 +95,7 @@ fn scenario(ctx: &Ctx, rep: &mut Report, case_seed: u64, variant: u64, kind: usi
 			1 => if quick { r.range(3, 6) } else { r.range(8, 16) },
 			2 => if quick { 50 } else { 90 },
 			3 => if quick { 300 } else { 1500 },
+			5 => 2,
 			_ => if quick { 120 } else { 500 },
 		};
 		handles.push(std::thread::spawn(move || {
@@ -98,13 +105,14 @@ fn scenario(ctx: &Ctx, rep: &mut Report, case_seed: u64, variant: u64, kind: usi
 			for seq in 1..=n_tx {
 				let mut tx = vec![];
 				match kind {
-					1 => {
-						// 1 - 20 MiB per transaction
-						let total = r.range(1 << 20, 20 << 20) as usize;
+					1 | 5 => {
+						// 1 - 20 MiB per transaction; the giant one exceeds the 128 MiB limit of
+						// logged-but-unapplied bytes all by itself and is followed by a small one
+						let total = if kind == 5 { if seq == 1 { r.range(130 << 20, 142 << 20) as usize } else { 4096 } } else { r.range(1 << 20, 20 << 20) as usize };
 						let mut sum = 0;
 						let mut i = 0u64;
 						while sum < total {
-							let len = r.range(64 << 10, 1 << 20) as usize;
+							let len = if total <= 4096 { 4096 } else { r.range(64 << 10, 1 << 20) as usize };
 							let key = format!("c{}-big-{}-{}", c, seq % 3, i).into_bytes();
 							let v = value(c as u8, seq, len);
 							expect.insert((1, key.clone()), Some(v.clone()));
@@ -190,7 +198,17 @@ fn scenario(ctx: &Ctx, rep: &mut Report, case_seed: u64, variant: u64, kind: usi
 	// ---- no further client activity: the queue must empty (and, with always_flush, be enacted)
 	let t0 = Instant::now();
 	let mut last = (0u64, 0u64, 0usize, 0usize);
-	loop {
+	if immediate {
+		rep.count("immediate_drops", 1);
+		if kind == 5 {
+			rep.count("giant_transactions", 1);
+		}
+		let st = db.verif_status();
+		if st.queued_commits > 0 || st.read_queue_len > 0 || st.appending.map_or(false, |a| a.1 > 0) {
+			rep.count("immediate_drops_with_work_pending", 1);
+		}
+	}
+	while !immediate {
 		let st = db.verif_status();
 		let logged = st.queued_commits == 0;
 		let enacted = st.read_queue_len == 0 && st.reading.is_none() && st.appending.map_or(true, |a| a.1 == 0) && st.last_enacted + 1 >= st.next_record_id;
@@ -212,12 +230,14 @@ fn scenario(ctx: &Ctx, rep: &mut Report, case_seed: u64, variant: u64, kind: usi
 			break
 		}
 	}
-	rep.count("drained_checks", 1);
-	rep.evaluations += 1;
+	if !immediate {
+		rep.count("drained_checks", 1);
+		rep.evaluations += 1;
+	}
 	let (hits, delayed) = delays::take_hits();
 	rep.count("yield_hits", hits.iter().sum());
 	rep.count("yield_delays", delayed);
-	rep.seen(format!("{}|throttled{}|af{}|delay{}", KINDS[kind], throttled as u8, always_flush as u8, profile));
+	rep.seen(format!("{}|throttled{}|af{}|delay{}|imm{}", KINDS[kind], throttled as u8, always_flush as u8, profile, immediate as u8));
 	// ---- shutdown terminates
 	ctx.mark(&format!("{} :: dropping the handle", desc));
 	ctx.progress();
